@@ -187,6 +187,9 @@ def e2e(ctx):
         [("namesake", None)] * (10 if quick else 120)
     plan = [(p, "cli-proc" if (p == "c13" and i % (21 if quick else 40) == 5) or (p == "resume" and i % (5 if quick else 10) == 2) else None)
             for i, (p, _) in enumerate(plan)]
+    # payloads at SCALE (rebuild_common.scale_plan): every aimed shape through a v1 and through a v2 / hybrid metafile, random
+    # shapes; the same generator of scatterings and decoys, the same reference judgement; now and then the unpatched command line
+    plan += [(p, "cli-proc" if j % 9 == 4 else None) for j, p in enumerate(rc.scale_plan(not quick))]
     seeds = [ctx.rng.getrandbits(48) for _ in plan]
     ctx.extra.setdefault("observations", {})
     with core.Scratch("vc13e_") as tmp:
